@@ -56,7 +56,7 @@ def every(lo, hi, fn):
     """For all lo <= j < hi: fn(j).  As a proof goal: fn at one fresh (arbitrary) index, which is equivalent and
     keeps a false goal decidable (a counterexample index is found at once); as an assumption: a quantifier."""
     st = cur()
-    if st.ghost.get("c05_assuming", 0) or st.capture is not None:
+    if (isinstance(lo, int) and isinstance(hi, int)) or st.ghost.get("c05_assuming", 0) or st.ghost.get("inv_assuming", 0) or st.capture is not None:
         return forall(lo, hi, fn)
     j = st.fresh_int("any_j")
     return implies(both(lo <= j, j < hi), fn(j))
@@ -626,3 +626,98 @@ class process_keyqueue:
             code == 27,
             both(enc == "utf8", code >= 128, L > 1, n < L, implies(n >= 2, is_cont(k(1))), implies(n >= 3, is_cont(k(2)))),
             both(enc == "wide", code >= 128, n == 1))
+
+
+# --------------------------------------------------------------------------------------------- Screen.parse_input
+#
+# Carry-over of an incomplete sequence between reads.  The event loop and the callback are opaque:
+#   * `InputLoop`: alarm(seconds, callback) -> handle, remove_alarm(handle) -> bool; neither raises;
+#   * `InputCallback`: callback(keys, raw) is logged (ghost) and ASSUMED not to raise — an exception of the user's
+#     callback is the caller's business (C12), not a decoding failure.
+# Dropped: the content of the decoded events (opaque `KeyEvent`s from process_keyqueue; the literal
+# "window resize" is kept), logging.  The closure `_parse_incomplete_input` handed to alarm() is not run here.
+from urwid.display import _raw_display_base as _rdb  # noqa: E402
+
+RD = "urwid/display/_raw_display_base.py:"
+
+
+class InputLoopProtocol(Protocol):
+    kind = "InputLoop"
+    methods = {
+        "alarm": PMethod(Opaque("InputAlarm"), params=["seconds", "callback"]),
+        "remove_alarm": PMethod(Bool, params=["handle"]),
+    }
+
+
+class InputCallbackProtocol(Protocol):
+    kind = "InputCallback"
+    methods = {}
+
+    def call(self, ip, st, f, args, kwargs):
+        if len(args) != 2 or kwargs:
+            raise PyRaise(SExc(TypeError, ("callback(keys, raw)",)))
+        st.event("input-callback", f, args[0].snapshot(), args[1].snapshot() if hasattr(args[1], "snapshot") else args[1])
+        return None
+
+
+PROTOCOLS["InputLoop"] = InputLoopProtocol()
+PROTOCOLS["InputCallback"] = InputCallbackProtocol()
+PROTOCOLS["InputAlarm"] = type("IA", (Protocol,), {"kind": "InputAlarm", "methods": {}})()
+
+SCREEN = Obj(_rdb.Screen, dict(_input_timeout=Opt(Opaque("InputAlarm")), _partial_codes=CODES, _resized=Bool, complete_wait=Int(0, 10)))
+DECODED = ListOf(EVENT)
+
+
+def _pi_loop0(v):
+    orig, codes = v.original_codes, v.codes
+    off = klen(orig) - klen(codes)
+    yield "still-to-decode-is-a-suffix-of-the-input", is_suffix_from(codes, orig, off)
+    yield "events-exactly-when-something-was-consumed", both(implies(off == 0, klen(v.decoded_codes) == 0), implies(off > 0, klen(v.decoded_codes) >= 1))
+
+
+def _trace_calls(st, name):
+    return [ev for ev in st.trace if ev[0] == "call" and ev[2] == name]
+
+
+@contract(RD + "Screen.parse_input", property="C05", replayable=False, globals_=ENC)
+class parse_input:
+    self_shape = SCREEN
+    params = dict(event_loop=Opt(Opaque("InputLoop")), callback=Opt(Opaque("InputCallback")), codes=CODES, wait_for_more=Bool)
+    raises = ()
+    modifies = ("_input_timeout", "_partial_codes", "_resized")
+
+    def ensures(old, s, a, result):
+        st = cur()
+        n = klen(a.old.codes)
+        cbs = [ev for ev in st.trace if ev[0] == "input-callback"]
+        if is_none(a.callback):
+            yield "without-a-callback-the-pair-is-returned", result is not None and len(cbs) == 0
+            decoded, raw = result
+        else:
+            yield "with-a-callback-it-is-called-exactly-once-and-none-is-returned", result is None and len(cbs) == 1
+            decoded, raw = cbs[0][2], cbs[0][3]
+        part = s._partial_codes
+        r = klen(raw)
+        yield "raw-then-pending-is-the-input-nothing-lost-or-duplicated", both(
+            r + klen(part) == n, every(0, r, lambda j: kat(raw, j) == kat(a.old.codes, j)), is_suffix_from(part, a.old.codes, r))
+        yield "a-flush-leaves-nothing-pending", implies(neg(a.wait_for_more), klen(part) == 0)
+        yield "events-exactly-when-input-was-consumed", both(implies(r == 0, klen(decoded) == ite(old._resized, 1, 0)), implies(r > 0, klen(decoded) >= ite(old._resized, 2, 1)))
+        yield "resize-reported-once-and-flag-cleared", both(s._resized == False, implies(old._resized, klen(decoded) >= 1))  # noqa: E712
+        if old._resized:
+            yield "resize-is-the-last-event", eq(kat(decoded, klen(decoded) - 1), "window resize")
+        alarms = _trace_calls(st, "alarm")
+        removed = _trace_calls(st, "remove_alarm")
+        pending = klen(part) > 0
+        if is_none(a.event_loop):
+            yield "no-loop-no-alarm", len(alarms) == 0 and len(removed) == 0
+        else:
+            if pending:
+                yield "pending-input-arms-the-completion-alarm", len(alarms) == 1 and bool(eq(alarms[0][3]["seconds"], old.complete_wait)) and not is_none(s._input_timeout) and bool(eq(val(s._input_timeout), alarms[0][4]))
+            else:
+                yield "no-alarm-without-pending-input", len(alarms) == 0
+            if not is_none(old._input_timeout):
+                yield "a-previous-completion-alarm-is-removed-first", len(removed) == 1 and bool(eq(removed[0][3]["handle"], val(old._input_timeout)))
+                if not pending:
+                    yield "and-forgotten", is_none(s._input_timeout)
+
+    loops = {0: Loop(invariant=_pi_loop0, decreases=lambda v: klen(v.codes), shapes={"decoded_codes": DECODED, "codes": CODES})}
